@@ -45,3 +45,9 @@ mk("b-c17-mux-rewrite", {"C17": "silent"}, [(B + "ops/multiplexer.rs",
    "            let i_choice1 = i_choice1.mixed_multiply(i_flag.clone())?;\n            let i_choice0 = i_choice0.mixed_multiply(i_flag.add(g.ones(scalar_type(BIT))?)?)?;\n            i_choice0.add(i_choice1)?.set_as_output()?;",
    "            let diff = i_choice1.subtract(i_choice0.clone())?;\n            i_choice0\n                .add(diff.mixed_multiply(i_flag)?)?\n                .set_as_output()?;")],
    "benign: arithmetic branch rewritten as arg2 + selector*(arg1 - arg2) (one product instead of two)", kind="benign")
+mk("m-c02-truncate-key", {"C02": ["C02.W|"]}, [(B + "mpc/mpc_truncate.rs",
+   "        let prf_key_parties_12 = prf_keys.tuple_get(PARTIES as u64 - 1)?;", "        let prf_key_parties_12 = prf_keys.tuple_get(PARTIES as u64 - 2)?;")],
+   "TruncateMPC draws r under key 1 (held by parties 1 and 0): party 2 cannot compute the third result share r")
+mk("m-c02-truncate-sender", {"C02": ["C02.W|"]}, [(B + "mpc/mpc_truncate.rs",
+   "        res1_sent.add_annotation(NodeAnnotation::Send(1, 0))?;", "        res1_sent.add_annotation(NodeAnnotation::Send(2, 0))?;")],
+   "TruncateMPC: the re-masked share is sent by party 2, which does not hold input share 1")
